@@ -108,7 +108,29 @@ func genC19(t *rapid.T) *Case {
 	case 5: // AsID
 		c.P["kind"] = VStr("asid")
 		c.P["v"] = genIDLike(t)
-	case 6, 7: // IsNewRecvID
+	case 6: // a sequence of ids received on one session: the last accepted one is what counts
+		n := 2 + uni(t, 7, "seqn")
+		ids := make([]V, n)
+		for i := range ids {
+			switch uni(t, 4, "seqk") {
+			case 0:
+				ids[i] = VU64(genNear(t, "seqid"))
+			case 1:
+				ids[i] = VU64(uint64(1 + uni(t, 600, "small")))
+			case 2:
+				ids[i] = VU64(maxID - uint64(uni(t, 600, "high")))
+			default:
+				if i > 0 {
+					ids[i] = ids[i-1] // replay of the previous id
+				} else {
+					ids[i] = VU64(maxID)
+				}
+			}
+		}
+		c.P["kind"] = VStr("recvseq")
+		c.P["ids"] = VList(ids...)
+		c.P["locked"] = VBool(rapid.Bool().Draw(t, "locked"))
+	case 7: // IsNewRecvID
 		last := genNear(t, "last")
 		id := genNear(t, "id")
 		c.P["kind"] = VStr("recvid")
@@ -327,6 +349,37 @@ func runC19(c *Case) (v Verdict) {
 		}
 		st.Label(fmt.Sprintf("recvid_new_%v", want))
 		st.NonTrivial = true
+	case "recvseq":
+		sess := wamp.NewSession(nil, 1, nil, nil)
+		locked, _ := c.P["locked"].Go().(bool)
+		var last uint64
+		wrapped := false
+		for i, iv := range c.P["ids"].L {
+			id := iv.Go().(uint64)
+			want := modelIsNew(last, id)
+			var got bool
+			if locked {
+				sess.Lock()
+				got = sess.UpdateLastRecvIDLocked(wamp.ID(id))
+				sess.Unlock()
+			} else {
+				got = sess.UpdateLastRecvID(wamp.ID(id))
+			}
+			if got != want {
+				return c19Fail("id %d (position %d of the sequence %s) after last accepted id %d: UpdateLastRecvID = %v, want %v", id, i, Show(c.P["ids"].Go()), last, got, want)
+			}
+			if want {
+				if id < last {
+					wrapped = true
+				}
+				last = id
+			}
+		}
+		if wrapped {
+			st.Label("recvseq_wrapped")
+			st.NonTrivial = true
+		}
+		st.Label("recvseq")
 	case "globalid":
 		n := c.P["n"].Go().(int)
 		for i := 0; i < n; i++ {
